@@ -151,6 +151,11 @@ Zones == {"tag-attr", "unknown-tag-attr", "closing-tag-attr", "ext-tag-attr", "o
           "link-target", "link-label", "image-option", "url", "bracket-url", "bracket-url-label", "mailto",
           "entity-name", "entity-number", "heading", "list-item", "pre-line", "comment",
           "template-name", "template-arg", "template-param", "parser-function", "magic-word", "nowiki-body"}
+\* numeric attribute values the parser itself interprets: the DIGITS of the value are pumped (1, 11, 111,
+\* 1111): work must grow with the length of the text, not with the value it spells (ten times more per digit)
+DigitZones == {"pages-to", "pages-from", "gallery-perrow", "gallery-widths", "gallery-heights", "source-start", "ol-start",
+               "li-value", "cell-colspan", "cell-rowspan", "td-colspan", "imagemap-coordinate", "image-px", "image-upright",
+               "padleft-width", "entity-number", "formatnum", "expr-operand"}
 PumpUnits == {"a", "1", "_", "-", ":", "SP_a", "=", "a=", "QUOTE", "APOS", "x", "|", "&", ";", "NONBMP", "/"}
 
 \* ---- bodies and attribute zones of the tag extensions that have a parser of their own.  Each
@@ -270,5 +275,5 @@ EmitSeq == (Len(seq) >= EmitFrom) =>
 ASSUME PrintT("@@" \o ToJson([alphabet |-> Lexemes, openers |-> Openers \cap Lexemes, closers |-> Closers \cap Lexemes,
                               structural |-> Structural \cap Lexemes, langsensitive |-> LangSensitive \cap Lexemes,
                               pumpcore |-> PumpCore \cap Lexemes, imagelinks |-> ImageLinks \cap Lexemes,
-                              zones |-> Zones, units |-> PumpUnits]))
+                              zones |-> Zones, units |-> PumpUnits, digitzones |-> DigitZones]))
 =============================================================================
